@@ -374,12 +374,16 @@ def _idle_predicate(repo) -> tuple[object, ast.AST, str]:
     for c in calls_named(rt, "WorkflowIdleEvent"):
         st = enclosing_stmt(c)
         for n in cfg.nodes_of(st):
-            for t, lab in cfg.guards(n):
-                if t.kind == "test" and lab == "T":
-                    tst = expand(t.ast.test, t.ast)
-                    for x in ast.walk(tst):
-                        if isinstance(x, ast.Call) and isinstance(x.func, ast.Name) and x.func.id in m.functions:
-                            names.add(x.func.id)
+            # positive facts on the path (either `if pred(): publish` or `if not pred(): return` … publish)
+            for atom, pol in facts_at(cfg, n, expand_locals=True, _depth=0):
+                if not pol:
+                    continue
+                try:
+                    tst = ast.parse(atom, mode="eval").body
+                except SyntaxError:
+                    continue
+                if isinstance(tst, ast.Call) and isinstance(tst.func, ast.Name) and tst.func.id in m.functions:
+                    names.add(tst.func.id)
     if len(names) != 1:
         raise AnchorError(f"C26.R1: cannot bind the idle predicate (test gating WorkflowIdleEvent in _reduce_tick calls {sorted(names)})")
     name = names.pop()
@@ -1047,6 +1051,8 @@ def rule_r6(chk) -> None:
 
 
 def run(chk) -> None:
+    from ._engine import engine_view
+    chk.extra["helpers_inlined"] = engine_view(chk.repo)
     rule_r1(chk)
     rule_r3(chk)
     rule_r4(chk)
